@@ -287,6 +287,34 @@ example : ∃ ps, render ps = "/* p */ a, // q\n    bb, /* r */".toList ∧
     "/* p */ a, // q\n    bb, /* r */".toList (by decide)
   exact ⟨ps, h1, by rw [h2]; decide⟩
 
+/-! ## The oracles that judge the real `write_list` are consequences of the theorems
+
+`lists.oracle.content` is `writeList_content`.  The two looser oracles: -/
+
+/-- `lists.oracle.items` accepts every result of the model: the item strings of the written items occur
+in the result as disjoint substrings, in order. -/
+theorem writeList_passes_items_oracle (f : ListFormatting) (rc : Rc) (items : List ListItem)
+    (out : List Char) (h : writeList f rc items = some out) :
+    occursInOrder (itemStrings items) out = true := by
+  obtain ⟨ps, rfl, hi, _⟩ := writeList_item_pieces f rc items out h
+  rw [← hi]
+  exact occursInOrder_of_embeds (embeds_items ps)
+
+/-- `lists.oracle.comments` accepts every result of the model when the comment rewriter keeps the
+non-blank characters: the squeezed comments occur in the squeezed result, in order. -/
+theorem writeList_passes_comments_oracle (f : ListFormatting) (rc : Rc) (items : List ListItem)
+    (out : List Char) (hrc : ∀ c bs sh r, rc c bs sh = some r → squeeze r = squeeze c)
+    (h : writeList f rc items = some out) :
+    occursInOrder (commentStrings items) (squeeze out) = true := by
+  rw [writeList_content f rc items out hrc h]
+  exact occursInOrder_of_embeds (embeds_comments f _ items 0)
+
+example : occursInOrder (commentStrings exItems) (squeeze "/* p */ a, // q\n    bb, /* r */".toList) = true := by
+  decide
+
+/-- The items oracle does refuse a result that lost an item. -/
+example : occursInOrder (itemStrings exItems) "/* p */ a, // q\n    , /* r */".toList = false := by decide
+
 /-! ## C02: the layout decision -/
 
 /-- **`definitive_tactic`, as the code has it.**  Horizontal iff no item has a `//` comment and either the
